@@ -59,7 +59,11 @@
    HEADLINE: C03_histories2_headline — the property text as one statement over op2 histories from the empty world
      outside Known_load_shared: Core (well-formed tree), sub_elements / parent / position agree, elements_dfs = the
      reachable elements once each in pre-order, the sub-element iterator = the content list, stale handles cannot
-     change the live model (and fail for all place-dependent requests but the four min_version-only ones). *)
+     change the live model (and fail for all place-dependent requests but the four min_version-only ones).
+   C03_histories2_navigation — the remaining clauses over the same histories: an element reachable from the root of
+     model k answers model() = k (C03_model_of_live), parent() of a listed element is its lister, the element-scoped
+     iterator for every depth limit and the file-scoped iterator enumerate the tree in document order, and the
+     queries model / path / parent through a handle of a detached element fail. *)
 From AV Require Import Base.Bytes Base.Outcome Hash.HashModel Tree.Heap Tree.Ops Tree.Script Tree.Inv Tree.Iter
   Tree.InvProofsTree Tree.InvProofsNav Tree.InvProofs Tree.StaleProofs Tree.IterProofs Tree.IterProofsFile
   Tree.InvProofsDetFiles Tree.InvProofsDetFilesMain Tree.InvProofsOp2 Tree.InvExamples
@@ -704,6 +708,34 @@ Theorem C03_stale_live2_histories2 :
     run_op2 T tab_el tab_at tab_en check_fn float_parse float_fmt LATEST name_index name_definition_ref
       attr_schema_location root_attrs o w = Val (r, w') -> live_eq w w'.
 Proof. exact stale_live2_histories2. Qed.
+
+Theorem C03_model_of_live :
+  forall (w : world) (k : nat) (r x : id),
+    Core w -> nth_error (roots w) k = Some r -> Reach w r x -> model_of x w = Val (OK (N.of_nat k), w).
+Proof. exact model_of_live. Qed.
+
+Theorem C03_histories2_navigation :
+  forall (T : tables) (tab_el tab_at tab_en : nametab) (check_fn : N -> list N -> res bool)
+         (float_parse : list N -> option N) (float_fmt : N -> list N)
+         (LATEST name_index name_definition_ref attr_schema_location : N) (root_attrs : list (N * cdata))
+         (l : list op2) (w : world),
+    run_ops2 T tab_el tab_at tab_en check_fn float_parse float_fmt LATEST name_index name_definition_ref
+      attr_schema_location root_attrs l empty_world = Val w ->
+    clean_shared_ops2 T tab_el tab_at tab_en check_fn float_parse float_fmt LATEST name_index
+      name_definition_ref attr_schema_location root_attrs l empty_world = true ->
+    (forall k r x, nth_error (roots w) k = Some r -> Reach w r x -> q_model x w = Val (OK (N.of_nat k), w)) /\
+    (forall p c, lists w p c -> q_parent c w = Val (OK (Some p), w)) /\
+    (forall i max, allocated w i ->
+       exists l f0, PreD w (lim_of max) 0 i l /\ forall f, (f0 <= f)%nat -> elements_dfs f i max w = Val l) /\
+    (forall file max fl x, nth_opt (w_files w) (N.to_nat file) = Some fl ->
+       nth_opt (w_models w) (N.to_nat (f_model fl)) = Some x ->
+       exists l f0, PreF w (lim_of max) file 0 (m_root x) l /\
+                    forall f, (f0 <= f)%nat -> file_elements_dfs f file max w = Val l) /\
+    (forall h, Detached w h ->
+       (forall r w', q_model h w = Val (r, w') -> w' = w /\ r = ER ItemDeleted) /\
+       (forall r w', q_path T h w = Val (r, w') -> w' = w /\ failed r) /\
+       (forall r w', parent_in w h = PNone -> q_parent h w = Val (r, w') -> w' = w /\ r = ER ItemDeleted)).
+Proof. exact navigation_histories2. Qed.
 
 (* ---------- the finding: an error after the point of no return leaves an orphan ---------- *)
 Theorem C03_failed_reparent_refuted :
